@@ -15,13 +15,53 @@ NOT_APPLICABLE = {}
 HOOK_COMMITS = []
 
 PROPS = {
+    "C05": dict(
+        modules=["Whawty.Props.C05"],
+        suites=[("hdrv+pam", "c05")],
+        level_text="handleConnection is modelled as decode (the C13 scanner model) -> callback at most once -> one "
+                   "clipped reply -> close; callback-at-most-once with exactly the decoded fields, positive-only-if, "
+                   "exactly one decodable reply (Go client model and PAM model both read the verdict) and fragmentation "
+                   "irrelevance are theorems for every byte stream, fragmentation, callback outcome and message; the "
+                   "real sasl.Server is driven over a unix socket (raw client, concurrent batches of 64) and every "
+                   "reply is also fed to the compiled PAM module.",
+        rule="Connections to a real sasl.NewServer: encoder output, truncations, trailing bytes, over-long length "
+             "fields, garbage, empty login/password, bit flips, doubled requests; random fragmentations with pauses, "
+             "half-close or full close; callback outcomes ok/deny/error with message lengths 0..3, 252..257, "
+             "65530..65540 and arbitrary bytes; 64 concurrent connections with distinct logins.",
+        trusted=[T_GO + ": net (unix sockets), bufio.Scanner (modelled)", "Linux-PAM itself is replaced by stub headers"],
+        partial=["a client that stalls without closing keeps its handler blocked (no deadline in the code): streams are "
+                 "taken to be finite", "non-interference between connections is observed (distinct logins, concurrent "
+                 "batches), not proved about the Go scheduler"],
+        assumptions=["client streams are finite"],
+    ),
+    "C20": dict(
+        modules=["Whawty.Props.C20"],
+        suites=[("hdrv+pam", "c20")],
+        level_text="Hand model of _whawty_get_password / _whawty_send_request / _whawty_read_data / "
+                   "_whawty_recv_response / _whawty_check_password over a script of what select()/read() observe; "
+                   "success-iff-reply-begins-with-OK (complete functional spec of the reply handling), request "
+                   "well-formedness (= Go encoder on clipped C strings), non-success for every other behaviour and a "
+                   "bound on select/read rounds are theorems; pam_whawty.c is compiled unmodified with ASan+UBSan and "
+                   "run against a scripted unix-socket server.",
+        rule="pam_sm_authenticate conversations: users/passwords of length 0,1,2,8,255,256,257,300,4096 and random "
+             "short ones (bytes 1..255, sometimes an embedded NUL), option sets, server scripts: whole replies "
+             "(OK/NO with messages, near misses of OK, wrong announced lengths, over-long), replies cut at a random "
+             "byte then close/reset, 1-byte dribble, header/body split, trailing bytes, silence and late answers "
+             "beyond the 1 s timeout, early close, reset, unreachable socket, no password available.",
+        trusted=["C compiler and libc; Linux-PAM replaced by stub headers (pam_get_user/pam_get_item/pam_prompt)",
+                 "ASan/UBSan as the memory-error oracle"],
+        partial=["memory safety and wall-clock bounds are run-time facts: observed with ASan/UBSan and the harness "
+                 "timeout, not proved", "select() with descriptors >= FD_SETSIZE and stale-errno EINTR tests in the "
+                 "read/write loops are outside the model"],
+        assumptions=["the module timeout is 1 s in the harness; delays are chosen away from it (<= 400 ms or >= 1.7 s)"],
+    ),
     "C13": dict(
         modules=["Whawty.Props.C13"],
         level_text="Wire format, round trip, over-limit refusal, re-encode = consumed prefix, fragment "
                    "independence of the bufio.Scanner loop and PAM/Go encoder agreement are Lean theorems for all "
                    "byte strings and all fragmentations (induction over the scanner loop); the model is compared "
                    "with sasl.Request/Response Encode/Decode/Marshal/Unmarshal on every run.",
-        suites=[("hdrv", "c13")],
+        suites=[("hdrv", "c13"), ("hdrv+pam", "c13pam")],
         rule="Requests over the exhaustive grid {0,1,2,255,256,257}^4 of field lengths plus the 65535/65536 "
              "boundary, responses over message lengths around every limit, decoder inputs (encoder output, "
              "truncations, bit flips, insertions, raw boundary-length parts, random bytes, fuzz-corpus shapes), "
@@ -71,8 +111,75 @@ def zip_results(lines_path, out_path):
             yield line, (v if v else "E driver produced no answer")
 
 
-def run_hdrv(suite, tier, seed, workdir, filt):
+def build_pamdrv(workdir):
+    """pam_whawty.c of the working tree, unmodified, against stub PAM headers, ASan + UBSan."""
+    out = os.path.join(workdir, "pamdrv")
+    pamdir = os.path.join(HARN, "pam")
+    r = subprocess.run(["clang", "-g", "-O1", "-fsanitize=address,undefined", "-fno-sanitize-recover=undefined",
+                        "-fno-omit-frame-pointer", "-I" + os.path.join(pamdir, "stub"), "-o", out,
+                        os.path.join(pamdir, "pamdrv.c"), os.path.join(REPO, "pam", "pam_whawty.c"), "-lpthread"],
+                       stdout=subprocess.PIPE, stderr=subprocess.STDOUT, text=True)
+    if r.returncode != 0:
+        raise HarnessError("clang build of pam_whawty.c + harness failed:\n" + r.stdout[-3000:])
+    return out
+
+
+def script_begins_ok(case):
+    script = case.split()[4]
+    data = b""
+    for a in script.split(";"):
+        if a.startswith("W"):
+            data += bytes.fromhex(a[1:])
+        elif a.startswith("S") and int(a[1:]) >= 1000 or a in ("C", "X", "N"):
+            break
+    return len(data) >= 4 and data[2:4] == b"OK" and min(data[0] * 256 + data[1], 256) >= 2
+
+
+def run_pam_lines(pamdrv, plines, sw):
+    """plines: '@pam <case> [expect=..] [expectsent=..] [law=..]'. Returns protocol lines."""
+    cases, metas = [], []
+    for l in plines:
+        toks = l.split()[1:]
+        meta = {t.split("=", 1)[0]: t.split("=", 1)[1] for t in toks[5:] if "=" in t}
+        cases.append(" ".join(toks[:5]))
+        metas.append(meta)
+    out = []
+    env = dict(os.environ, ASAN_OPTIONS="detect_leaks=1:abort_on_error=0:exitcode=77", UBSAN_OPTIONS="print_stacktrace=1")
+    idx = 0
+    while idx < len(cases):
+        r = subprocess.run([pamdrv, sw], input="\n".join(cases[idx:]) + "\n", stdout=subprocess.PIPE,
+                           stderr=subprocess.PIPE, text=True, env=env, timeout=1800)
+        got = [x for x in r.stdout.split("\n") if " => " in x]
+        for g in got:
+            meta = metas[idx]
+            out.append(g)
+            real = g.split(" => ", 1)[1].split()
+            if "expect" in meta:
+                out.append("law.%s %s => %s" % (meta.get("law", "C05.pam_reads_verdict"), cases[idx],
+                                                 "t" if real and real[0] == meta["expect"] else "f"))
+            if "expectsent" in meta:
+                out.append("law.%s %s => %s" % (meta.get("sentlaw", "C13.pam_encoder_agrees"), cases[idx],
+                           "t" if len(real) > 1 and real[1] == meta["expectsent"] else "f"))
+            # C20, statement of success_only_on_ok on the real module: PAM_SUCCESS only if the bytes the
+            # scripted server delivered (before any silence > timeout / close) begin with <len>"OK", len >= 2
+            if real and real[0] == "0":
+                out.append("law.C20.success_only_on_ok %s => %s" % (cases[idx], "t" if script_begins_ok(cases[idx]) else "f"))
+            idx += 1
+        if r.returncode != 0 or idx < len(cases) and not got:
+            # sanitizer report or crash while running case idx
+            if idx < len(cases):
+                why = (r.stderr or "")[-600:].replace("\n", " | ")
+                out.append("law.C20.no_memory_error_or_crash %s exit=%d %s => f" % (cases[idx], r.returncode, why))
+                idx += 1
+            elif r.returncode != 0:
+                why = (r.stderr or "")[-600:].replace("\n", " | ")
+                out.append("law.C20.no_memory_error_or_crash at-exit exit=%d %s => f" % (r.returncode, why))
+    return out
+
+
+def run_hdrv(suite, tier, seed, workdir, filt, pam=False):
     exe = build_hdrv(workdir)
+    pamdrv = build_pamdrv(workdir) if pam else None
     n = NPROC
 
     def shard(i):
@@ -85,9 +192,15 @@ def run_hdrv(suite, tier, seed, workdir, filt):
                                stderr=subprocess.PIPE, env=GOENV)
         if r.returncode != 0:
             raise HarnessError("harness %s shard %d exited %d: %s" % (suite, i, r.returncode, r.stderr.decode()[-2000:]))
+        lines = open(lp, errors="replace").read().split("\n")
+        plines = [l for l in lines if l.startswith("@pam ")]
+        if plines:
+            if not pamdrv:
+                raise HarnessError("suite %s emitted @pam lines but was not configured with the PAM harness" % suite)
+            lines = [l for l in lines if not l.startswith("@pam ")] + run_pam_lines(pamdrv, plines, sw)
         if filt is not None:
-            keep = [l for l in open(lp, errors="replace") if l.rstrip("\n") in filt_set]
-            open(lp, "w").writelines(keep)
+            lines = [l for l in lines if l in filt_set]
+        open(lp, "w").write("\n".join(l for l in lines if l.strip()) + "\n")
         drive(lp, op)
         shutil.rmtree(sw, ignore_errors=True)
         return lp, op
@@ -101,7 +214,11 @@ def run_hdrv(suite, tier, seed, workdir, filt):
         os.remove(op)
 
 
-RUNNERS = {"hdrv": run_hdrv}
+def run_hdrv_pam(suite, tier, seed, workdir, filt):
+    yield from run_hdrv(suite, tier, seed, workdir, filt, pam=True)
+
+
+RUNNERS = {"hdrv": run_hdrv, "hdrv+pam": run_hdrv_pam}
 
 
 def run_suite(prop, tier, seed, workdir, filt=None):
